@@ -5,7 +5,7 @@
    that should receive Model.ml / Model.mli. *)
 Require Import ExtrOcamlBasic.
 From RV Require Import model.Base model.Clock model.Ledger model.Registry model.Chain model.Sync
-     model.Pool model.Json model.Sha256 model.Wire.
+     model.Pool model.Json model.Sha256 model.Wire model.Neighborhood model.Wallet model.Views.
 
 Extraction Language OCaml.
 Set Extraction Optimize.
@@ -18,4 +18,7 @@ Extraction "Model.ml"
   (* sync *) update candidates survivors select age_of
   (* pool *) node_empty pool_add validate pool_ids
   (* wire *) render marshal_block marshal_tx marshal_utxo marshal_request marshal_input_info
-             gen_id_sha block_hash_sha input_msg sha256 hex_of_bytes bytes_of_string.
+             gen_id_sha block_hash_sha input_msg sha256 hex_of_bytes bytes_of_string
+  (* neighborhood *) network_id add_targets incentive known reachable outbounds_count select_outbounds fanout
+                     admissible_outbounds sync_round
+  (* access node *) find_closest tx_info wallet_amount progress_of.
